@@ -1,7 +1,8 @@
 """C14 - dynamic completion offers real, visible, applicable candidates."""
 from vlib import *
 import defs as D, cmdline_sig, random
-from cmdline_check import sample_cases
+from cmdline_check import sample_cases, parse_rejects
+import linegen
 
 
 def comp_family(seed, n, maxlen=3, budget=2500):
@@ -31,6 +32,81 @@ def expand(cases, out):
                                     "pending": comp["pending"], "acmds": c["acmds"]}) + "\n")
                 n += 1
     return n
+
+
+def random_partial(rnd, d):
+    longs, shorts, cmds = [], [], []
+    for lvl in D.all_levels(d):
+        for it in lvl["named"]:
+            longs += it["lchars"][:1]
+            shorts += it["shorts"][:1]
+        for c in lvl["tail"].get("cmds", []):
+            cmds.append(c["nchars"][0])
+            cmds += [list(x) for x in c["shorts"]]
+    r = rnd.random()
+    if r < 0.25 or not (longs or shorts or cmds):
+        return {"k": "fresh", "cs": [], "s": ""}
+    if r < 0.35:
+        return {"k": "dash", "cs": [], "s": ""}
+    if r < 0.6 and longs:
+        cs = rnd.choice(longs)
+        return {"k": "long", "cs": cs[: rnd.randint(0, max(0, len(cs) - 1))], "s": ""}
+    if r < 0.75 and shorts:
+        return {"k": "short", "cs": [], "s": rnd.choice(shorts)}
+    if cmds:
+        cs = rnd.choice(cmds)
+        return {"k": "word", "cs": cs[: rnd.randint(1, len(cs))], "s": ""}
+    return {"k": "fresh", "cs": [], "s": ""}
+
+
+def hidden_shorts(d):
+    return {sh for lvl in D.all_levels(d) for it in lvl["named"] if it.get("hidden") for sh in it["shorts"]}
+
+
+def partial_text(p):
+    return {"fresh": "", "dash": "-", "long": "--" + "".join(p["cs"]), "short": p["s"], "word": "".join(p["cs"])}[p["k"]]
+
+
+def driver(v, hbin, fam, n):
+    """impl -> spec beyond the exhaustive bound: prefixes of generated sentences of larger definitions, a random partial
+    last item; the recorded candidate sets are validated by TLC against MustOffer/MayOffer"""
+    rnd = random.Random(SEED * 31 + 5)
+    dpath = os.path.join(WORK, f"C14-{v.tier}-ddefs.ndjson")
+    D.write_ndjson(dpath, fam)
+    cpath = os.path.join(WORK, f"C14-{v.tier}-dcases.ndjson")
+    reqs = []
+    with open(cpath, "w") as w:
+        for i in range(n):
+            d = fam[i % len(fam)]
+            line = linegen.level_sentence(rnd, d)
+            line = line[: rnd.randint(0, len(line))]
+            # F2 (C02): a hidden short name inside a multi-letter item is not known to the tokeniser - not C14's business
+            hs = hidden_shorts(d)
+            line = [it for it in line if not (it["t"] == "glued" and it["s"] in hs)]
+            p = random_partial(rnd, d)
+            reqs.append(p)
+            w.write(json.dumps({"def": d["id"], "line": line, "partial": partial_text(p), "comp": 0}) + "\n")
+    dump = os.path.join(WORK, f"C14-{v.tier}-dobs.ndjson")
+    run_replay(hbin, dpath, cpath, os.path.join(WORK, f"C14-{v.tier}-dmm.ndjson"), dump=dump)
+    trace = os.path.join(WORK, f"C14-{v.tier}-dtrace.ndjson")
+    recs = []
+    with open(trace, "w") as w:
+        for r, p in zip(read_ndjson(dump), reqs):
+            rec = {"kind": "complete", "def": r["def"], "line": r["line"], "env": {}, "p": p, "class": r["got"]["class"],
+                   "cands": r["got"].get("cands") or [], "got": {"class": r["got"]["class"], "kind": "", "vtext": "", "vjson": "", "pjson": "[]"}}
+            recs.append((rec, r))
+            w.write(json.dumps(rec) + "\n")
+    t = run_tlc("CmdLineTrace", "CmdLineTrace.cfg", env={"TRACE": trace, "DEFS": dpath}, workers=1,
+                extra_java="-Xss1g -Dtlc2.tool.queue.IStateQueue=StateDeque", timeout=3600)
+    for ix, exp in parse_rejects(t["out"]):
+        rec, r = recs[ix - 1]
+        m = {"def": r["def"], "line": r["line"], "partial": r["partial"], "argv_bytes": r["argv_bytes"], "got": r["got"],
+             "expect": {"class": "completion", "must": exp.get("must", []), "may": exp.get("may", [])}, "from": "trace-validation",
+             "acmds": exp.get("acmds", [])}
+        v.report(sig(m), m)
+    if not t["ok"]:
+        raise ToolError("completion trace validation did not complete:\n" + t["tail"])
+    return len(recs)
 
 
 def sig(m):
@@ -69,7 +145,8 @@ def run(v):
     summ = run_replay(hbin, dpath, cases, mm)
     for m in read_ndjson(mm):
         v.report(sig(m), {k: m[k] for k in m if k != "def_full"} | {"def": m.get("def_full", m.get("def"))})
-    cov = {"states": meta["distinct"], "transitions": meta["states"], "traces_validated_against_impl": summ["cases"],
+    tv = driver(v, hbin, comp_family(SEED + 1140, 30 if q else 120, maxlen=2, budget=10**9), 12000 if q else 200000)
+    cov = {"driver_requests_validated_by_tlc": tv, "states": meta["distinct"], "transitions": meta["states"], "traces_validated_against_impl": summ["cases"],
            "definitions": len(fam), "completion_requests": n, "impl_classes": summ["classes"],
            "distinct_nontrivial": n,
            "samples": [{"def": c["def"], "line": [i["txt"] for i in c["line"]], "partial": c["partial"], "must": c["expect"]["must"],
